@@ -1,5 +1,5 @@
 """C04 - base height = configured percentile, inside the layer, never coded upward (structural part)."""
-from sa.rules import baseheight, wmo, metarize, rounding, params
+from sa.rules import baseheight, wmo, metarize, rounding, params, ownership
 
 LEVEL = 'other'
 
@@ -16,6 +16,8 @@ def check(ctx):
     # R9: the percentile, look-back and exclusion list asked for per call are the ones used (= C12-R2: every value of a
     # known key is taken over, an empty list included)
     params.merge_routine(ctx, 'C04-R9')
+    # R10: one set of base-height parameters for all three tables of a chunk: the chunk owns its snapshot (= C11-R4)
+    ownership.owned_fields(ctx, 'C04-R10')
     ctx.undecided += ['numerical equality with the percentile; finiteness of the LOWESS output',
                       'flooring within one ulp of a x00 ft boundary (exact-real model)',
                       'that np.percentile of a non-empty selection lies between its minimum and maximum (A1)']
